@@ -368,7 +368,8 @@ fn prop_value_roots(t: &mut Tape, st: &mut Stats) -> Result<(), Failure> {
 }
 
 fn prop_types(t: &mut Tape, st: &mut Stats) -> Result<(), Failure> {
-    match t.below(10) {
+    match t.below(12) {
+        10 | 11 => check_type("Attrs", &g_attrs(t), t, st),
         0 => check_type("Scalars", &g_scalars(t), t, st),
         1 => check_type("Opts", &g_opts(t), t, st),
         2 => check_type("Seqs", &g_seqs(t), t, st),
